@@ -64,6 +64,14 @@ def run_ip(loop, evs):
             obs.append("s%d" % struct.unpack("<LQ", nonce)[1])
             return orig_enc(aad, nonce, pt)
         p.encryptor.encrypt = enc
+        orig_dec = p.decryptor.decrypt
+
+        def dec(aad, nonce, ct):
+            pt = orig_dec(aad, nonce, ct)
+            # an incoming block authenticated under this counter: that is an acceptance, whatever it contains
+            obs.append("a%d" % struct.unpack("<LQ", nonce)[1])
+            return pt
+        p.decryptor.decrypt = dec
         sink = []
         pending = []
         with mock.patch.object(ipc.InsecureHomeKitProtocol, "data_received", lambda self, data: sink.append(bytes(data))):
@@ -77,17 +85,14 @@ def run_ip(loop, evs):
                 elif ev[0] in ("g", "x"):
                     if ev[0] == "g":
                         j = ev[1]
-                        body = b"m%d" % j
+                        body = b"m%d" % j if j % 2 == 0 else b""  # every other block the accessory sends is empty (a flushed empty body)
                         lb = struct.pack("<H", len(body))
                         frame = lb + ChaCha20Poly1305(KEY_A2C).encrypt(n_ip(j), body, lb)
                     else:
                         lb = struct.pack("<H", 3)
                         frame = lb + bytes(3 + 16)
-                    n0 = len(sink)
                     t.feed(frame)
                     await asyncio.sleep(0)
-                    for s in sink[n0:]:
-                        obs.append("a" + s[1:].decode())
                 elif ev[0] == "a":
                     live = [x for x in pending if not x.done()]
                     if live:
@@ -245,11 +250,24 @@ def run_ble_sessions(loop, evs, seed=0):
         client = _BleClient([], obs)
         p.client = client
         honour = [True]
+        replay_handshake = [False]
+        recorded = {}  # the last full pair-verify as an eavesdropper saw it: M2, and the secret only the two ends know
 
         async def drive(cl, char, sm):
             req, exp = sm.send(None)
             d = {int(k): bytes(v) for k, v in req}
             ios_pk = d[3]
+            if replay_handshake[0] and recorded:
+                # someone who recorded an earlier handshake answers with its M2 and M4, byte for byte
+                req3, _ = sm.send({k: bytearray(v) for k, v in recorded["m2"]})
+                acc["replayed"] = acc.get("replayed", 0) + 1
+                try:
+                    sm.send({6: bytearray(b"\x04")})
+                    raise AssertionError("verify not finished")
+                except StopIteration as st:
+                    acc["shared"] = recorded["shared"]  # the controller derived the old secret again
+                    acc["sid"] = st.value[0]
+                    return st.value
             resume_ok = False
             if 0 in d and honour[0] and acc["shared"] is not None and d.get(14) == acc["sid"]:
                 # pair-resume, accessory side (HAP 5.8); a request that does not authenticate is treated as a plain M1
@@ -276,6 +294,7 @@ def run_ble_sessions(loop, evs, seed=0):
             req3, _ = sm.send({k: bytearray(v) for k, v in m2})
             assert va.check_m3([(k, bytes(v)) for k, v in req3])
             acc["full"] += 1
+            recorded["m2"], recorded["shared"] = m2, va.shared
             try:
                 sm.send({6: bytearray(b"\x04")})
                 raise AssertionError("verify not finished")
@@ -311,13 +330,20 @@ def run_ble_sessions(loop, evs, seed=0):
         i = 0
         while i < len(evs):
             ev = evs[i]
-            if ev[0] in ("Kr", "Kf"):
+            if ev[0] in ("Kr", "Kf", "Kp"):
                 i += 1
                 honour[0] = ev[0] == "Kr"
+                replay_handshake[0] = ev[0] == "Kp"
                 client.is_connected = True  # the radio link is re-established before every pair-verify
                 p.client = client
-                with mock.patch.object(blep, "drive_pairing_state_machine", drive):
-                    await p._async_pair_verify()
+                try:
+                    with mock.patch.object(blep, "drive_pairing_state_machine", drive):
+                        await p._async_pair_verify()
+                except Exception:  # noqa: BLE001
+                    if ev[0] != "Kp":
+                        raise
+                    # the replayed handshake was refused: no new session, the old keys (and their counters) stay
+                    continue
                 ep = install_spies()
                 continue
             if ev[0] != "s":
@@ -358,6 +384,8 @@ def gen_sessions(rng, long_run=False):
     next pair-verify)"""
     evs = []
     for sidx in range(rng.randrange(2, 6 if long_run else 4)):
+        if sidx and rng.random() < 0.3:
+            evs.append(("Kp",))  # before the genuine accessory answers, a recorded handshake is played back
         evs.append((rng.choice(["Kr", "Kr", "Kf"]),))
         ctr = 0
         for _ in range(rng.randrange(0, 4)):
@@ -591,7 +619,8 @@ def run(ctx: Ctx, driver: Driver):
     # ------------- BLE over several sessions (pair-verify, pair-resume, traffic, failures)
     cases, outs, lines = [], [], []
     sess = [[("Kf",), ("s", 1), ("g", 0), ("Kr",), ("s", 1), ("g", 0)], [("Kf",), ("s", 2), ("g", 0), ("s", 1), ("g", 1), ("Kr",), ("s", 1), ("o", 0), ("Kr",), ("s", 1), ("g", 0)],
-            [("Kf",), ("Kr",), ("Kr",), ("s", 1), ("g", 0)], [("Kf",), ("s", 1), ("x",), ("Kr",), ("s", 1), ("g", 0), ("Kf",), ("s", 1), ("g", 0)]]
+            [("Kf",), ("Kr",), ("Kr",), ("s", 1), ("g", 0)], [("Kf",), ("s", 1), ("g", 0), ("Kp",), ("s", 1), ("g", 1), ("Kr",), ("s", 1), ("g", 0)],
+            [("Kf",), ("s", 2), ("g", 0), ("Kp",), ("s", 1), ("o", 0)], [("Kf",), ("s", 1), ("x",), ("Kr",), ("s", 1), ("g", 0), ("Kf",), ("s", 1), ("g", 0)]]
     for k in range(ctx.budget(60, 1200)):
         sess.append(gen_sessions(rng, long_run=k % 5 == 0))
     nres = 0
@@ -605,7 +634,7 @@ def run(ctx: Ctx, driver: Driver):
             ctx.violation(sig, text, case)
         cases.append(case)
         outs.append(" ".join(obs) or "-")
-        lines.append("ctr.sess " + " ".join(sess_tok(e) for e in evs))
+        lines.append("ctr.sess " + " ".join(t for t in (sess_tok(e) for e in evs) if t))
     ctx.dist["ble-sessions:resumed"] = nres
     if nres == 0:
         ctx.violation("ble/resume-never-happened", "no session of the BLE multi-session stream was resumed: the stream does not exercise pair-resume", cases[0])
@@ -652,7 +681,9 @@ def run(ctx: Ctx, driver: Driver):
 
 def sess_tok(e):
     """model token of a session event: any pair-verify is a re-key; a response of an earlier session authenticates under
-    no counter of the current key set"""
+    no counter of the current key set; a replayed handshake (`Kp`) is refused and changes nothing"""
+    if e[0] == "Kp":
+        return None
     if e[0] in ("Kr", "Kf"):
         return "K"
     if e[0] == "o":
@@ -688,7 +719,7 @@ def replay(ctx, driver, c):
     try:
         evs = [(e[0], int(e[1:])) if len(e) > 1 else (e,) for e in c["events"]]
         if c["stream"] == "ble-sessions":
-            evs = [(e,) if e in ("Kr", "Kf", "x", "a") else (e[0], int(e[1:])) for e in c["events"]]
+            evs = [(e,) if e in ("Kr", "Kf", "Kp", "x", "a") else (e[0], int(e[1:])) for e in c["events"]]
             v = analyse_sessions(run_ble_sessions(loop, evs, seed=c.get("seed", 0)))
             return v[0][1] if v else None
         fn = {"ip": run_ip, "ble": run_ble, "coap": run_coap}.get(c["stream"])
